@@ -159,6 +159,13 @@ def parseOptInt (s : String) : Option (Option Int) :=
 
 def hasSub (s sub : String) : Bool := (s.splitOn sub).length > 1
 
+/-- The line printed where the model does not cover the input (custom type string with non-ASCII characters):
+the implementation's line is echoed, except that a crash-class outcome is never accepted as agreement. -/
+def echoUnmodelled (impl : String) : String :=
+  let t := impl.trimAscii.toString
+  if t == "PANIC" ∨ t == "HANG" ∨ t == "CRASH" ∨ t == "NOT-RUN" ∨ t == "" then "REJECT " ++ (if t == "" then "empty" else t.toLower)
+  else impl
+
 def runFrame (w : List String) (impl : String) : String :=
   match w with
   | [rl, lwt, tab, mid, cm, comp, _x, hex] =>
@@ -191,13 +198,13 @@ def runFrame (w : List String) (impl : String) : String :=
           let (o, _) := decodeBody f cached h body
           match o with
           | .err k =>
-            if hasSub k "unmodelled" then impl
+            if hasSub k "unmodelled" then echoUnmodelled impl
             else match parseExt h.flags { buf := body } with
               | (.ok ext, _) => hdrStr h ++ ztok ++ " " ++ extStr ext ++ " err " ++ k
               | (.err _, _) => hdrStr h ++ ztok ++ " err " ++ k
           | .ok d =>
             let line := hdrStr h ++ ztok ++ " " ++ extStr d.ext ++ " " ++ respStr f d.resp d.rowsStage
-            if hasSub line "unmodelled" then impl else line
+            if hasSub line "unmodelled" then echoUnmodelled impl else line
     | _, _, _ => "bad-case"
   | _ => "bad-case"
 
